@@ -48,6 +48,23 @@ Proof. reflexivity. Qed.
 Check (C18_batch_only_safe_ctor : batch_safe_ctor_unique = true).
 Print Assumptions C18_batch_only_safe_ctor.
 
+(** The macro front: [entities!((c1, .., ck); n)] calls [new_unchecked] itself.  Whatever the size expression
+    returns on successive evaluations, the columns have one length (finding F10 repaired: evaluated once —
+    read off the source); before the repair a side-effecting size built ragged columns in safe code. *)
+Theorem C18_entities_macro : forall k evals,
+  check_len (macro_cloned k evals) = true /\ batch_new (macro_cloned k evals) = Some (component_len (macro_cloned k evals)).
+Proof. intros k evals. split; [apply macro_cloned_rectangular|apply macro_cloned_is_a_batch]. Qed.
+Check (C18_entities_macro : forall k evals,
+  check_len (macro_cloned k evals) = true /\ batch_new (macro_cloned k evals) = Some (component_len (macro_cloned k evals))).
+Print Assumptions C18_entities_macro.
+
+Theorem C18_entities_macro_F10_before_the_repair : check_len (macro_cloned_cols false 2 [4; 1]) = false.
+Proof. exact macro_cloned_ragged_before. Qed.
+
+Theorem C18_safe_ways_to_a_batch : batch_safe_ctors_known = true.
+Proof. reflexivity. Qed.
+Print Assumptions C18_safe_ways_to_a_batch.
+
 (** Non-vacuity. *)
 Example C18_example :
   construct CDeserialize [3; 1; 4; 1] = Panicked /\ construct CDefault [3; 1; 4] = Returned /\
